@@ -326,10 +326,10 @@ Proof.
   destruct (Nat.eqb (List.length ends) 1) eqn:L1; [apply ginv_fail; assumption|].
   apply Nat.eqb_neq in L1.
   set (g1 := match alist_get s (g_nodes g) with
-             | Some n => if nkind_eqb (n_kind n) NPass && negb (n_out n) then set_typed s g else g
+             | Some n => if nkind_eqb (n_kind n) NPass && negb (n_out n) then update_pending (set_typed s g) else g
              | None => g end).
   assert (S1 : same_skel g g1).
-  { unfold g1. destruct (alist_get s (g_nodes g)); [dif; [apply ss_set_typed|apply ss_refl]|apply ss_refl]. }
+  { unfold g1. destruct (alist_get s (g_nodes g)); [dif; [eapply ss_trans; [apply ss_set_typed|apply ss_update_pending]|apply ss_refl]|apply ss_refl]. }
   set (g2 := set_h_prebranch (g_h_prebranch g1 ++ [s]) g1).
   assert (S2 : same_skel g g2) by (eapply ss_trans; [exact S1|apply ss_set_h_prebranch]).
   pose proof (ginv_skel _ _ S2 I) as I2.
